@@ -12,7 +12,9 @@ import (
 	"github.com/juev/hledger-lsp/internal/zzverif"
 )
 
-func init() { zzverif.Register("VerifC11Missing", VerifC11Missing) }
+func init() {
+	zzverif.Register("VerifC11Missing", VerifC11Missing)
+}
 
 func c11MissingRoot(pad int, payee string) string {
 	s := ""
